@@ -16,4 +16,29 @@ ENTRIES = {
         "note": TB,
         "technique": "runtime monitoring: shadow-stack + twin + lock-step reference-model oracles over generated/steered histories (dbg with std UB checks, rel); dense single-step sweep",
     },
+    "C02": {
+        "text": "Runs the real RangeEncoder/RangeDecoder on messages generated while encoding, by random choice and by a state-observing "
+                "adversary that forces entry into, long stays in and both kinds of exit from the carry-pending (inverted) situation, sealing "
+                "while inverted, ranges on the renormalisation threshold; checks exact FIFO round trip through five decoder constructions, the "
+                "encoder and decoder interval invariants after every step, empty-message and maybe_exhausted clauses, and word-for-word equality "
+                "with an independent carry-propagating reference coder. Edge events are counted and the run is INCONCLUSIVE if they were not reached.",
+        "note": TB,
+        "technique": "runtime monitoring: round-trip + invariant monitors + lock-step carry-propagating reference range coder under state-steered hostile messages",
+    },
+    "C06": {
+        "text": "Feeds identical (cumulative, probability, precision) streams to the real ANS coder / range encoder and to independent "
+                "reference implementations written from the published algorithms (u128 rANS; carry-propagating range coder with mutable "
+                "digits), comparing per-step head/interval and final words on all 8 type rows, plus 12 byte-exact vectors from the project's "
+                "documentation (README, lib.rs, stream/mod.rs, stack.rs, Python doc examples). Detects symmetric encoder+decoder changes that round trips cannot see.",
+        "note": TB + "; a defect shared by documentation, reference and code would be invisible",
+        "technique": "runtime monitoring: differential execution against independent reference implementations + pinned documentation vectors",
+    },
+    "C11": {
+        "text": "Decodes sealed range-coder output followed by hostile suffixes (all-ones, zeros, random, a second sealed message, pre-filled sink) "
+                "for hundreds of thousands of steered short messages whose final interval ends just above a word boundary, and evaluates an analytic "
+                "side-oracle from the encoder's final public state that says whether any suffix could break the message. The documented two-word seal is "
+                "insufficient for State > 2 Words (known finding K1, matched by its root-cause signature); any other failure, in particular any with State = 2 Words, is a VIOLATION.",
+        "note": TB + "; the known finding is matched only on signature C11/seal-2w-wide-state (State > 2 Words, seal [w,0], side-oracle unpinned)",
+        "technique": "runtime monitoring: suffix-injection round trips + analytic interval-containment oracle on observed encoder state, steered to the seal edge",
+    },
 }
